@@ -1,29 +1,55 @@
-// "filename" family (C31): the fetch and store_chunk sanitize_filename lambdas (extracted from the current
-// source into c31_sanitize.hpp by tools/props/C31.py) and security::sanitize_filename_hint.
+// "filename" family (C31):
+//  1: the directory branch of `eph fetch` (copied verbatim from the current src/main.cpp into c31_fetch.hpp by
+//     tools/props/C31.py): manifest filename -> output path below the chosen directory
+//  2: the real Node::store_chunk: caller's file name -> filename recorded in the issued manifest
+//  3: security::sanitize_filename_hint
 #include "common.hpp"
-#include "c31_sanitize.hpp"
+#include "c31_fetch.hpp"
+#include "ephemeralnet/core/Node.hpp"
 #include "ephemeralnet/security/StoreProof.hpp"
 using hv::In; using hv::Out; using hv::i64;
+namespace en = ephemeralnet;
+
+static en::Node& node() {
+    static en::Node n = [] {
+        en::Config cfg{};
+        cfg.identity_seed = 7u;
+        en::PeerId id{}; id[0] = 0x31;
+        return en::Node(id, cfg);
+    }();
+    return n;
+}
 
 int main() {
     return hv::main_loop([](In& in, Out& out) {
         const i64 which = in.next();
         const std::string raw = in.str();
+        const std::filesystem::path dir("/tmp/verif-c31-dir/sub");
         std::string name;
         if (which == 1) {
-            name = gen_fetch_sanitize(raw);
+            en::protocol::Manifest m{};
+            m.chunk_id[0] = 0xAB;
+            m.metadata["filename"] = raw;
+            const auto resolved = gen_fetch_resolve(dir, std::optional<en::protocol::Manifest>(m), true);
+            const std::string full = resolved.string();
+            const std::string prefix = dir.string() + "/";
+            const std::string rest = full.rfind(prefix, 0) == 0 ? full.substr(prefix.size()) : full;
+            if (rest == en::chunk_id_to_string(m.chunk_id)) { out.put(0); out.put(0); return; }   // fell back to the chunk id
+            out.bytes(rest);
+            out.put(resolved.parent_path() == dir && resolved.filename().string() == rest ? 1 : 0);
+            return;
         } else if (which == 2) {
-            std::filesystem::path candidate(raw);
-            auto base = gen_store_sanitize_inner(candidate.filename().string());
-            if (!base.empty()) { if (base.size() > gen_store_max) base.resize(gen_store_max); }
-            name = base;
+            en::ChunkId cid{}; cid[0] = 0x42;
+            en::ChunkData data{1, 2, 3};
+            const auto manifest = node().store_chunk(cid, data, std::chrono::seconds(60), raw);
+            const auto it = manifest.metadata.find("filename");
+            name = it == manifest.metadata.end() ? std::string{} : it->second;
         } else if (which == 3) {
-            const auto r = ephemeralnet::security::sanitize_filename_hint(raw);
+            const auto r = en::security::sanitize_filename_hint(raw);
             name = r.value_or(std::string{});
         } else { out.put(-1); return; }
         out.bytes(name);
         // what the CLI does with it: resolved_output = destination; resolved_output /= name
-        std::filesystem::path dir("/tmp/verif-c31-dir/sub");
         std::filesystem::path resolved = dir;
         resolved /= name;
         out.put(!name.empty() && resolved.parent_path() == dir && resolved.filename().string() == name ? 1 : 0);
